@@ -161,6 +161,14 @@ def _rand_opts(rng, kind):
         o['check_num_steps'] = bool(rng.random() < 0.5)
     if rng.random() < 0.3:
         o['scale'] = float(rng.uniform(1.0, 12.0))
+    # numeric options given as Python ints where the value is integral (step_ratio=2, base_step=1, step_nom=2, scale=3)
+    for key in ('step_ratio', 'base_step', 'step_nom', 'scale'):
+        if key in o and float(o[key]).is_integer() and rng.random() < 0.5:
+            o[key] = int(o[key])
+    if 'scale' in o and rng.random() < 0.15:
+        o['scale'] = int(round(o['scale']))
+    if 'step_ratio' in o and rng.random() < 0.1:
+        o['step_ratio'] = int(rng.choice([2, 3, 4, 8, 10]))
     if kind == 'c':
         if rng.random() < 0.6:
             o['path'] = str(rng.choice(['radial', 'spiral']))
